@@ -383,6 +383,21 @@ def rule_c12_rng(prog: Program, col: Collector) -> None:
             obj, meth = v[1], v[2]
             for cq in solver_classes_of(obj, ref):
                 nsites += _check_env_factory(prog, col, cq, meth, rng_attrs, NEC_SHARED, ref)
+    # ---- custom pickling of objects that travel to the workers
+    hooks = ("__reduce__", "__reduce_ex__", "__getstate__", "__setstate__", "__getnewargs__", "__getnewargs_ex__", "__copy__", "__deepcopy__")
+    shipped = ["icg_gym.ICG_Gym", "icg_gym_linear.ICG_Gym_Linear", "game.IncompleteCooperativeGame", "graph_game.GraphCooperativeGame"]
+    from .solvers import solver_classes
+    shipped += [f"{m.name}.{c.name}" for _, m, c, _ in solver_classes(prog)]
+    for cq in dict.fromkeys(shipped):
+        try:
+            meths = prog.methods(cq)
+        except AnchorMissing:
+            continue
+        bad = [h for h in hooks if h in meths]
+        col.check(not bad, meths[bad[0]].where() if bad else "-", cq.replace(P, ""),
+                  f"{cq.rsplit('.', 1)[-1]} is pickled with its own state (no custom {'/'.join(bad) if bad else 'pickling hook'})", construct=f"pickle-hook:{cq.rsplit('.', 1)[-1]}",
+                  necessity="an object that is re-constructed instead of copied when it is sent to a worker (e.g. __reduce__ returning the constructor arguments) "
+                            "re-runs its constructor there - the env draws new hidden games - so the pooled path differs from the in-process path", rule="Q3")
     # ---- global RNG draws anywhere outside generators.py (C10 owns those)
     gl = 0
     for ref in prog.all_functions():
